@@ -108,6 +108,12 @@ def run(rep, tier, seed, b):
         targeted.append([['new', d0], ['set', ['held', 0]], ['alpha'], ['dec', '[C][N][O]', False, False],
                          ['mut', 0, rng.choice([['setitem', k, rng.choice([0, 1, 5])], ['setitem', 'N', rng.choice([0, 1, 5])], ['del', k], ['setitem', 'Xe', 3]])],
                          ['get'], ['alpha']])
+    # the alphabet was already computed under one table; the table is then switched (by preset name, by dict, by reset)
+    names = ['default', 'octet_rule', 'hypervalent']
+    for _ in range(60 if tier == 'quick' else 600):
+        first = rng.choice([[['set', ['name', rng.choice(names)]]], [['new', H.random_dict(rng, valid=True)], ['set', ['held', 0]]]])
+        second = rng.choice([[['set', ['name', rng.choice(names)]]], [['new', H.random_dict(rng, valid=True)], ['set', ['held', 1 if first[0][0] == 'new' else 0]]]])
+        targeted.append(first + [['alpha'], ['dec', '[C][=Cl][#Br][=I][N]', False, False]] + second + [['dec', '[C][=Cl][#Br][=I][N]', False, False], ['get'], ['alpha']])
     hists = [H.random_history(rng, translate=False) + [['get'], ['alpha']] for _ in range(60 if tier == 'quick' else 600)] + targeted
     for ops in hists:
         im = H.impl_run(ops)
@@ -120,6 +126,27 @@ def run(rep, tier, seed, b):
                 rep.oracle_failures.append({'clause': 'the alphabet reflects the table in force at the time of the call',
                                             'input': {'ops': ops}, 'impl': sorted(set(im[-1]['set']) ^ spec_alphabet(t)),
                                             'klass': 'alphabet-alias' if polluted else None})
+    # near-miss tables: whatever the library ACCEPTS, its alphabet must decode (an ill-spelled key that slips through
+    # the validator puts a symbol into the alphabet that the decoder rejects)
+    s_ = sf()
+    d = drv()
+    for bk in H.BAD_KEYS:
+        for base in ({'?': 3}, dict(presets[0])):
+            t = dict(base)
+            t[bk] = 2
+            st = call(s_.set_semantic_constraints, dict(t))
+            rep.evaluations += 1
+            rep.impl_traces += 1
+            rep.count('near-miss tables offered')
+            if 'ok' not in st:
+                continue
+            rep.count('near-miss tables accepted')
+            for x in sorted(s_.get_semantic_robust_alphabet()):
+                im = call(s_.decoder, x)
+                if 'ok' not in im:
+                    rep.oracle_failures.append({'clause': 'every symbol of the alphabet of an accepted table decodes without error',
+                                                'input': {'table': t, 'selfies': x}, 'impl': im})
+                    break
     sf().set_semantic_constraints()
     for r in res[:3]:
         rep.sample({'table': r['table'], 'strings_decoded': r['n']})
@@ -156,7 +183,9 @@ def replay(data):
     if 'ops' in i:
         return {'input': i, 'impl': H.impl_run(i['ops']), 'fails': True}
     s_ = sf()
-    s_.set_semantic_constraints(dict(i['table']))
+    st = call(s_.set_semantic_constraints, dict(i['table']))
+    if 'ok' not in st:
+        return {'input': i, 'impl': st, 'fails': False, 'note': 'the table is rejected'}
     out = {'input': i, 'alphabet_diff_vs_spec': sorted(set(s_.get_semantic_robust_alphabet()) ^ spec_alphabet(i['table']))}
     if 'selfies' in i:
         r = call(s_.decoder, i['selfies'])
